@@ -27,6 +27,20 @@ def gen_random(cs, rnd, n):
             cs.recipes[-1]["runs"][0]["argv"] = cs.recipes[-1]["runs"][0]["argv"] + ["--output-style=text"]
 
 
+def gen_parent_keys(cs, rnd, n):
+    """Grouped by a member of the record an element was split from (^.g), behind a sort (and limits): the rows a stage hands on keep their parents."""
+    for i in range(n):
+        cfg = PL.mkcfg(split=PL.field("items"), group={"k": "by", "e": PL.field("g", up=1)})
+        if rnd.random() < 0.8:
+            cfg["sorts"] = [{"e": PL.field("n"), "desc": rnd.random() < 0.4}] + ([{"e": PL.field("k1"), "desc": False}] if rnd.random() < 0.3 else [])
+        if rnd.random() < 0.3:
+            cfg["skip"], cfg["take"] = rnd.choice([0, 1]), rnd.choice([2, 3, 5])
+        if rnd.random() < 0.3:
+            cfg["unique"] = True
+        rows = PL.rand_rows(rnd, rnd.choice([2, 3, 5, 8]), items=1.0, few_keys=True)
+        PC.add_ref(cs, cfg, rows, rnd)
+
+
 def check(tier, seed, replay=None):
     chk = Check("C09", tier, seed)
     chk.rule = ("a case is one grouped/merged run (checked against Ref) or a pair of runs with and without grouping on the same input; distinct = "
@@ -54,6 +68,7 @@ def check(tier, seed, replay=None):
             nb += 1
         chk.notes["model_behaviours_replayed"] = nb
         gen_random(cs, rnd, 300 if quick else 20000)
+        gen_parent_keys(cs, rnd, 40 if quick else 1500)
     per, recs = PC.run_and_validate(chk, jvh, cs, "c09", nproc=2 if tier == "quick" else 12)
     PC.summarize(chk, cs, per, lambda rc: len(rc["input"]) >= 2)
     return chk.finish()
